@@ -107,6 +107,7 @@ class Sys:
         self.state_trace = [self.proto.state]
         self.peer_close = None       # (code, reason_bytes) of the first VALID close frame fed
         self.peer_closes = []        # every VALID close frame fed (a misbehaving peer may send >1)
+        self.first_peer_close_valid = None
         self.peer_close_any = False
         self.hs_done_len = 0
         self.deferred = False        # aio: octets queued, not yet processed
@@ -225,6 +226,8 @@ class Sys:
                 if p.state == S_CLOSING and name == "text" and p.closedByMe:
                     self.notes.add("data_after_our_close")
                 if name.startswith("close"):
+                    if not self.peer_close_any:
+                        self.first_peer_close_valid = valid_close is not None
                     self.peer_close_any = True
                     if valid_close is not None:
                         self.peer_closes.append(valid_close)
@@ -293,6 +296,7 @@ class Sys:
             "peer_close": None if self.peer_close is None else
             (self.peer_close[0], self.peer_close[1].hex()),
             "peer_close_any": self.peer_close_any,
+            "first_valid": self.first_peer_close_valid,
         }
 
     def canon(self):
@@ -392,11 +396,11 @@ def monitors(s, ev):
             if not closes or not s.peer_close_any:
                 bad.append(("clean-without-both-close-frames",
                             "closes_sent=%d peer_close_fed=%s" % (len(closes), s.peer_close_any)))
-            elif s.peer_closes:
-                # a peer that (illegally) sends several close frames: the statement does not say
-                # which one counts; require the code/reason of one of them
-                if not any(code == pc and (reason or "") == pr.decode("utf8")
-                           for pc, pr in s.peer_closes):
+            elif s.peer_closes and s.first_peer_close_valid:
+                # the peer's close frame is its FIRST one (anything after it is discarded,
+                # RFC 6455 1.4).  If that first close frame was itself invalid the connection was
+                # failed and what is reported is not judged.
+                if not (code == s.peer_closes[0][0] and (reason or "") == s.peer_closes[0][1].decode("utf8")):
                     bad.append(("clean-close-reports-wrong-code-reason",
                                 "reported (%r,%r) peer sent %r" % (code, reason, s.peer_closes)))
         else:
